@@ -295,16 +295,23 @@ func Main(o Options) {
 		return
 	}
 	if w := argValue("--scenario"); w != "" {
-		idx, _ := strconv.Atoi(w)
+		// "--scenario a" or "--scenario a-b" (inclusive range)
+		var a, b int
+		if n, _ := fmt.Sscanf(w, "%d-%d", &a, &b); n < 2 {
+			a, _ = strconv.Atoi(w)
+			b = a
+		}
 		dl, _ := strconv.ParseInt(argValue("--deadline"), 10, 64)
 		if dl > 0 {
 			cfg.Deadline = time.Unix(dl, 0)
 		}
-		if idx < 0 || idx >= len(scs) {
-			common.Broken("bad scenario index %d", idx)
+		if a < 0 || b >= len(scs) {
+			common.Broken("bad scenario range %s", w)
 		}
-		st := ExploreScenario(scs[idx], cfg)
-		json.NewEncoder(os.Stdout).Encode(st)
+		enc := json.NewEncoder(os.Stdout)
+		for idx := a; idx <= b; idx++ {
+			enc.Encode(ExploreScenario(scs[idx], cfg))
+		}
 		return
 	}
 	if argValue("--emit-stats") != "" {
@@ -340,6 +347,11 @@ func Collect(o Options, tier string, cfg Config, scs []*Scenario, budget time.Du
 	var all []Stats
 	var wg sync.WaitGroup
 	next := 0
+	// many small scenarios are handed out in batches (one worker process per batch)
+	batch := len(scs) / (n * 8)
+	if batch < 1 {
+		batch = 1
+	}
 	for i := 0; i < n; i++ {
 		wg.Add(1)
 		go func(i int) {
@@ -347,12 +359,16 @@ func Collect(o Options, tier string, cfg Config, scs []*Scenario, budget time.Du
 			for {
 				mu.Lock()
 				idx := next
-				next++
+				next += batch
 				mu.Unlock()
 				if idx >= len(scs) {
 					return
 				}
-				args := append([]string{"--tier", tier, "--scenario", strconv.Itoa(idx), "--deadline", strconv.FormatInt(deadline.Unix(), 10)}, o.PassArgs...)
+				hi := idx + batch - 1
+				if hi >= len(scs) {
+					hi = len(scs) - 1
+				}
+				args := append([]string{"--tier", tier, "--scenario", fmt.Sprintf("%d-%d", idx, hi), "--deadline", strconv.FormatInt(deadline.Unix(), 10)}, o.PassArgs...)
 				cmd := exec.Command(os.Args[0], args...)
 				cmd.Env = append(os.Environ(), "GOMAXPROCS=2")
 				cmd.Stderr = os.Stderr
@@ -375,7 +391,7 @@ func Collect(o Options, tier string, cfg Config, scs []*Scenario, budget time.Du
 					mu.Unlock()
 				}
 				if err := cmd.Wait(); err != nil {
-					common.Broken("worker for scenario %d (%s) failed: %v", idx, scs[idx].Name, err)
+					common.Broken("worker for scenarios %d-%d (%s ...) failed: %v", idx, hi, scs[idx].Name, err)
 				}
 			}
 		}(i)
@@ -439,6 +455,13 @@ func Summarize(c *common.Check, cfg Config, all []Stats, nscen int) {
 	if len(perScenario) <= 120 {
 		c.Cov["per_scenario"] = perScenario
 	}
+	big := append([]Stats(nil), all...)
+	sort.Slice(big, func(i, j int) bool { return big[i].Execs > big[j].Execs })
+	var largest []map[string]any
+	for i := 0; i < len(big) && i < 12; i++ {
+		largest = append(largest, map[string]any{"scenario": big[i].Scenario, "execs": big[i].Execs, "exhaustive": big[i].Exhaustive, "max_steps": big[i].MaxSteps, "distinct_outcomes": big[i].NOutcomes})
+	}
+	c.Cov["largest_scenarios"] = largest
 	c.Cov["explanation"] = "stateless DFS over scheduling decisions of the real code under the controlled runtime; states = complete executions; every execution is an execution of the implementation"
 }
 
